@@ -326,6 +326,7 @@ PLAN: Dict[str, dict] = {
             S("R-DTYPE", "selected / joined results keep numpy's promoted dtype", only=COMBINING),
             S("R-NONE", "axis / shape arguments that are 0 or () are honoured like numpy does"),
             G("R-LEAD", "argmax/argmin/amax/amin rank float coefficients exactly (the proxy holds ranks, not truncated values)", only=in_funcs("sortable_proxy")),
+            G("R-PRODAXES", "prod accepts the negative axes numpy accepts (the axis is normalised before it is used as a count)", only=msg("negative axis")),
         ],
         "explanation": "Last sentence in full: in true_divide/floor_divide/remainder/divmod every path to the numeric ufunc or to a "
                        "normal return passed divisor.isconstant() and the other edge raises FeatureNotSupported. Every registered "
@@ -359,6 +360,7 @@ PLAN: Dict[str, dict] = {
             G("R-CODEC", "keys written to the header decode with the same constant"),
             S("R-SIG", "loadtxt reaches a signature-valid reshape"),
             G("R-NAMES", "loadtxt restores the shape through reshape, which must keep the names", only=in_files("array_function/reshape.py", "array_function/loadtxt.py", "array_function/savetxt.py")),
+            G("R-OPT-TABLE", "unpickling and loadtxt rebuild under the options in force (retain_names): an option leaked by an earlier block changes the object that comes back"),
         ],
         "explanation": "__reduce__ returns polynomial_from_attributes with exponents/coefficients/names/dtype/allocation bound to the "
                        "right parameters; __array_finalize__ copies exactly the attribute set __new__ assigns; HEADER_REGEX is built "
@@ -421,6 +423,8 @@ PLAN: Dict[str, dict] = {
         "uses": [G("R-STABLE", "no unstable sort primitive in the composed sort"), S("R-FWD", "graded/reverse/cross_truncation forwarded", only=in_files("numpoly/utils/", "construct/monomial.py")),
                  G("R-BINDEX", "the inverted ordering reverses rows only"),
                  G("R-GLEX", "reverse flips the key rows of the 2-D key matrix, also for a single 1-D key"),
+                 G("R-OPT-TABLE", "monomial() names its indeterminates from default_varname: an option leaked by an earlier block renames them"),
+                 G("R-NAMES", "the elements of a monomial array obtained by iteration keep its names", only=in_files("numpoly/baseclass.py")),
                  G("R-NONE", "bounds / dimensions / cross_truncation that are 0 are honoured, not mistaken for 'omitted'", only=in_files("numpoly/utils/", "construct/monomial.py")),
                  G("R-DIVGUARD", "cross_truncate divides by the bound only after excluding negative and zero components"),
                  G("R-OPT-PAIRING", "glexindex/monomial/bindex forward graded/reverse to their callee", only=in_files("numpoly/utils/", "construct/monomial.py"))],
